@@ -638,6 +638,70 @@ func c03Typestate(c *core.Ctx, nt *types.Named) {
 		}
 		c.Check(guardedMut && refusal, tk+"."+name+":trailer-typestate", tm.Pos(), "trailers are added only on the not-closed edge; otherwise an error is returned", "trailers can be set after they were sent / the stream closed without an error")
 	}
+	// (e) what the handler sets is accepted whatever it contains: a setter refuses only because of the stream's
+	// state (already sent / closed) or because the transport write failed, never because of the metadata itself —
+	// an error that comes out of a function which is handed the metadata and is not itself a setter, a frame/header
+	// writer or the wrapped stream is a judgement on the content (and the caller's whole SetHeader/SetTrailer call,
+	// whose error is commonly ignored, is dropped)
+	setters := map[*ssa.Function]bool{}
+	for _, root := range []string{"SetHeader", "SendHeader", "SetTrailer", "TrySetTrailer"} {
+		for _, f := range methodFamily(p, nt, root) {
+			setters[f] = true
+		}
+	}
+	var order []*ssa.Function
+	for f := range setters {
+		order = append(order, f)
+	}
+	sort.Slice(order, func(i, j int) bool { return core.FuncName(order[i]) < core.FuncName(order[j]) })
+	for _, f := range order {
+		var mdPar []*ssa.Parameter
+		for _, pp := range f.Params {
+			if core.TypeStr(pp.Type()) == metadataPkg+".MD" {
+				mdPar = append(mdPar, pp)
+			}
+		}
+		if len(mdPar) == 0 {
+			continue
+		}
+		bad := ""
+		for _, r := range core.ErrReturns(f) {
+			ev := r.Results[len(r.Results)-1]
+			for _, l := range core.ErrLeaves(ev, r) {
+				call, _, isCall := core.CallResult(l.V)
+				if !isCall {
+					continue
+				}
+				ci := core.InfoOf(&call.Call)
+				if ci.Static == nil || !strings.HasPrefix(ci.Pkg, core.ModulePath) || setters[ci.Static] {
+					continue
+				}
+				if isInprocFrameWriter(ci.Static) {
+					continue
+				}
+				if isW, _ := httpFrameWriteCall(call); isW {
+					continue
+				}
+				takesMD := false
+				for _, a := range call.Call.Args {
+					if core.TypeStr(a.Type()) == metadataPkg+".MD" && core.OriginIs(a, func(o ssa.Value) bool {
+						for _, pp := range mdPar {
+							if core.ResolveFree(core.Strip(o)) == ssa.Value(pp) {
+								return true
+							}
+						}
+						return false
+					}) {
+						takesMD = true
+					}
+				}
+				if takesMD && ci.Static.Signature.Results().Len() == 1 {
+					bad = core.FuncName(ci.Static)
+				}
+			}
+		}
+		c.Check(bad == "", fmt.Sprintf("%s.%s:refuses-only-for-state", tk, f.Name()), f.Pos(), "errors come from the sent/closed state or from the transport write only", "the setter returns the error of "+bad+", a function that examines the handler's metadata: headers or trailers are refused because of what they contain (everything the call set is dropped, and the error of SetHeader/SetTrailer is commonly ignored), although the property promises that what the handler sets reaches the caller")
+	}
 }
 
 // marksWithConstArg: SendHeader delegating to a helper with a constant
@@ -899,6 +963,45 @@ func c03CallOptions(c *core.Ctx) {
 			}
 			sort.Strings(req)
 			c.Check(len(req) == 0, core.FuncName(fn)+":fan-out-guard", call.Pos(), "the fan-out of reply metadata does not require a particular kind of option to be present", fmt.Sprintf("the fan-out of reply metadata runs only if the option list(s) %v are non-empty: a call that supplies only the other kind of option (only grpc.Trailer, or only grpc.Header) gets nothing", req))
+		}
+	}
+	// ... and a unary call fills the caller's targets once: a second fan-out on the same path (the same helper
+	// run over another part of the reply, say) overwrites what the first one stored
+	for _, ct := range channelTypes(p, "httpgrpc") {
+		inv := declaredMethod(p, ct, "Invoke")
+		if inv == nil {
+			continue
+		}
+		var leads func(f *ssa.Function, name string, depth int) bool
+		leads = func(f *ssa.Function, name string, depth int) bool {
+			if f == nil || f.Blocks == nil || depth > 2 {
+				return false
+			}
+			if len(core.CallsIn(f, func(_ *ssa.Call, c2 core.CallInfo) bool { return c2.Name == name && c2.Recv == "CallOptions" })) > 0 {
+				return true
+			}
+			for _, h := range core.HelperCallsOf(f) {
+				if leads(h.Callee, name, depth+1) {
+					return true
+				}
+			}
+			return false
+		}
+		for _, name := range []string{"SetHeaders", "SetTrailers"} {
+			name := name
+			isFan := func(in ssa.Instruction) bool {
+				call, ok := in.(*ssa.Call)
+				if !ok {
+					return false
+				}
+				ci := core.InfoOf(&call.Call)
+				if ci.Name == name && ci.Recv == "CallOptions" {
+					return true
+				}
+				return ci.Static != nil && strings.HasPrefix(ci.Pkg, core.ModulePath) && leads(ci.Static, name, 0)
+			}
+			_, mx, ok := core.CountRange(core.Entry(inv), isFan, nil)
+			c.Check(ok && mx <= 1, core.FuncName(inv)+":"+name+":at-most-once", inv.Pos(), "the reply metadata is handed to the call options at most once per call", "on some path of the unary call "+name+" runs more than once: the later run overwrites the targets the earlier one filled (with whatever part of the reply it was given — an empty set for the headers when it is run over the trailers)")
 		}
 	}
 	c.Check(nH >= 2 && nT >= 2, "httpgrpc:fan-out-sites", token.NoPos, fmt.Sprintf("HTTP client hands headers to the options at %d site(s) and trailers at %d (unary and streaming)", nH, nT), fmt.Sprintf("HTTP client calls SetHeaders %d× and SetTrailers %d×: expected both on the unary and the streaming path", nH, nT))
